@@ -55,6 +55,12 @@ theorem view05Lib_elab (l : ALib) (h : ∀ c ∈ l.cells, netsOKB c.nets = true)
     simp only [ALib.elab, List.map_map]
     exact List.map_congr_left (fun c hc => view05Cell_elab c (h c hc))
   rw [this]
+  have he : extOf l.elab.data = l.external := by
+    have hk : (withName l.base l.name.ident l.name.name).get? kEXT = l.base.get? kEXT :=
+      get?_withName_other _ _ _ kEXT (by decide) (by decide)
+    simp only [extOf, ALib.elab, ALib.data, hk, ALib.base]
+    cases l.external <;> rfl
+  rw [he]
 
 /-- the view of the elaborated netlist is the denotation -/
 theorem view05_elab (d : ADesign) (h : d.wf = true) : view05 d.elab = denote d := by
